@@ -14,6 +14,9 @@ use rand::Rng;
 
 const DEFAULT_MAX_HEIGHT: usize = 12;
 
+#[cfg(blue_verif)]
+pub mod verif;
+
 /////////////////////////////////////////////// Node ///////////////////////////////////////////////
 
 struct Node<K, V, const MAX_HEIGHT: usize = DEFAULT_MAX_HEIGHT> {
@@ -37,11 +40,25 @@ impl<K, V, const MAX_HEIGHT: usize> Node<K, V, MAX_HEIGHT> {
 
     fn set_next(&self, level: usize, x: *mut Node<K, V, MAX_HEIGHT>) {
         assert!(level < self.pointers.len());
+        #[cfg(blue_verif)]
+        let _verif = verif::Guard::new(
+            verif::SET,
+            self as *const Self as usize,
+            level,
+            &self.pointers[level] as *const _ as usize,
+        );
         self.pointers[level].store(x, Ordering::Release);
     }
 
     fn get_next(&self, level: usize) -> *mut Node<K, V, MAX_HEIGHT> {
         assert!(level < self.pointers.len());
+        #[cfg(blue_verif)]
+        let _verif = verif::Guard::new(
+            verif::GET,
+            self as *const Self as usize,
+            level,
+            &self.pointers[level] as *const _ as usize,
+        );
         self.pointers[level].load(Ordering::Acquire)
     }
 
@@ -52,6 +69,13 @@ impl<K, V, const MAX_HEIGHT: usize> Node<K, V, MAX_HEIGHT> {
         new_node: *mut Node<K, V, MAX_HEIGHT>,
     ) -> bool {
         assert!(level < self.pointers.len());
+        #[cfg(blue_verif)]
+        let _verif = verif::Guard::new(
+            verif::CAS,
+            self as *const Self as usize,
+            level,
+            &self.pointers[level] as *const _ as usize,
+        );
         self.pointers[level].compare_exchange(
             old_node,
             new_node,
@@ -67,6 +91,8 @@ mod node_ptr {
     fn deref<'a, K, V, const MAX_HEIGHT: usize>(
         ptr: *mut Node<K, V, MAX_HEIGHT>,
     ) -> &'a Node<K, V, MAX_HEIGHT> {
+        #[cfg(blue_verif)]
+        super::verif::point(super::verif::DEREF, ptr as usize, 0);
         unsafe { &*ptr }
     }
 
@@ -129,6 +155,8 @@ impl<K, V, const MAX_HEIGHT: usize> Drop for Body<K, V, MAX_HEIGHT> {
         while !ptr.is_null() {
             let to_drop = ptr;
             ptr = node_ptr::get_next(ptr, 0);
+            #[cfg(blue_verif)]
+            verif::point(verif::FREE, to_drop as usize, 0);
             drop(unsafe { Box::from_raw(to_drop) });
         }
     }
@@ -147,6 +175,8 @@ impl<K: Eq + Ord + Default, V: Default, const MAX_HEIGHT: usize> SkipList<K, V, 
         assert!(existing.is_null() || node_ptr::key(existing) != &key);
         let height = Self::random_height();
         let x = Self::new_node(key, value, height);
+        #[cfg(blue_verif)]
+        verif::point(verif::ALLOC, x as usize, height);
         for idx in 0..height {
             'lockfree_looping: loop {
                 node_ptr::set_next(x, idx, obs[idx]);
@@ -191,6 +221,10 @@ impl<K: Eq + Ord + Default, V: Default, const MAX_HEIGHT: usize> SkipList<K, V, 
 
     fn random_height() -> usize {
         const BRANCHING: u8 = 4;
+        #[cfg(blue_verif)]
+        if let Some(height) = verif::height(MAX_HEIGHT) {
+            return height;
+        }
         let mut height = 1usize;
         let mut rng = rand::thread_rng();
         while height < MAX_HEIGHT && rng.r#gen::<u8>() % BRANCHING == 0 {
@@ -302,6 +336,8 @@ impl<K: Eq + Ord + Default, V: Default, const MAX_HEIGHT: usize> Default
 {
     fn default() -> Self {
         let head = Self::new_node(K::default(), V::default(), MAX_HEIGHT);
+        #[cfg(blue_verif)]
+        verif::point(verif::ALLOC, head as usize, MAX_HEIGHT);
         for idx in 0..MAX_HEIGHT {
             node_ptr::set_next(head, idx, std::ptr::null_mut());
         }
